@@ -147,9 +147,10 @@ def snapshot(im, objs):
     back = dict((id(o), i) for i, o in enumerate(objs))
     out = {}
     for v, arches in im.images.items():
+        if not arches:
+            out[(v, None)] = set()          # an empty variant table is structure too
         for a, cell in arches.items():
-            if cell:
-                out[(v, a)] = set(back.get(id(o), "foreign:%r" % (o,)) for o in cell)
+            out[(v, a)] = set(back.get(id(o), "foreign:%r" % (o,)) for o in cell)
     return out
 
 
@@ -169,7 +170,7 @@ def walk_invariant(im):
 
 
 def cells_json(cells):
-    return dict(("%s/%s" % k, sorted(v, key=str)) for k, v in sorted(cells.items()))
+    return dict(("%s/%s" % k, sorted(v, key=str)) for k, v in sorted(cells.items(), key=lambda kv: (kv[0][0], str(kv[0][1]))))
 
 
 def check_history(ctx, pm, H):
